@@ -45,7 +45,7 @@ func runC01(c *core.Ctx) {
 	c.Rule("R2", "single lookup implementation: Filter ∘ findInstancesForKey under one lock hold, RF passed on unchanged", 5)
 	c.Rule("R3", "walk bookkeeping: append ⇔ filter includes; extend ⇔ operation extends on the state; per-zone totals count all instances; early stop ⇔ every zone satisfied or exhausted", 5)
 	c.Rule("R5", "the token→owner index is rebuilt from the descriptor on every topology change and never modified (shared with C13.R7)", 1)
-	c.Rule("R6", "every token of the ring reaches the sorted lists the walk searches: the merges that build them drop nothing, 2^32-1 included (shared with C14.R3 and C14.R7)", 2)
+	c.Rule("R6", "every token of the ring reaches the sorted lists the walk searches: the merges that build them drop nothing, 2^32-1 included, and their inputs are sorted by the producers (shared with C14.R3, C14.R5 and C14.R7)", 2)
 	c.Rule("R7", "the walk's per-zone counters are separate storage: each counter slice is a prefix of its own array or a fresh allocation", 1)
 	c.Rule("R8", "successor search: the index after an exact match, the insertion point otherwise, index 0 past the last token — nothing else", 1)
 	c.Rule("R4", "default strategy: quorum computed before filtering over max(RF, walked); keep ⇔ IsHealthy (state ∧ one-sided heartbeat age ≤ timeout); slack = healthy − quorum", 6)
@@ -238,6 +238,7 @@ func runC01(c *core.Ctx) {
 	c13ImmutableIndex(c, pkg, "R5")
 	c14ExtremumAs(c, pkg, "R6")
 	c14MergeMarkerAs(c, pkg, "R6")
+	c.As("R5", "R6", func() { c14SortedInputs(c, pkg) })
 	c01Counters(c, pkg)
 	c01SearchTokenAs(c, pkg, "R8")
 	// ---- R4
